@@ -24,6 +24,7 @@ where
             if let Err(e) = self.role.tick(internal_event_tx, event_tx, &self.ctx).await {
                 tracing::error!("tick failed: {:?}", e);
             }
+            self.persist_hard_state_if_changed();
         } else if let Ok(internal_event) = self.internal_event_rx.try_recv() {
             self.buffered_internal_event.push_back(internal_event);
             self.drain_internal_events().await?;
